@@ -238,9 +238,11 @@ GVec(g, fam, rich) ==
 \* the leaf contexts in a fixed order (the first is the plain leaf)
 Ctxs == <<"plain", "mandatory", "config-false", "state-mandatory", "deprecated", "obsolete", "if-feature", "mandatory-if-feature",
           "case", "short-case", "case-mandatory", "default-case", "list", "list-mandatory", "presence", "presence-mandatory",
-          "uses", "uses-mandatory", "refine-mandatory">>
+          "uses", "uses-mandatory", "refine-mandatory",
+          "uses-foreign", "uses-foreign-mandatory", "uses-foreign-nested", "uses-foreign-container", "augment", "submodule", "submodule-uses">>
 ASSUME RangeOf(Ctxs) = LeafCtxs
-InCtx(ch, c) == [ch EXCEPT !.ctx = c]
+\* a grouping of module a can only be used from module b (b imports a): in those contexts the leaf belongs to module b
+InCtx(ch, c) == [ch EXCEPT !.ctx = c, !.mod = IF c \in ForeignCtxs THEN "b" ELSE @]
 \* a typedef'd union used as a member (typedef tN { type union {...} }  ...  type tN;) and an inline nested union
 TU(ms) == Chain("union", <<[Lv0 EXCEPT !.members = ms], Lv0>>)
 IU(ms) == Chain("union", <<[Lv0 EXCEPT !.members = ms]>>)
@@ -320,7 +322,12 @@ OtherDefFam ==
   \cup {Chain("union", <<OptDef(Un(U2), d1)>>) : d1 \in {<< >>, T("true"), T("abc"), c4}}
   \cup {IdCh("a", "a", "b0", <<OptDef(Lv0, d)>>) : d \in {<< >>, T("d1"), T("b:e2"), T("b0"), T("lone")}}
 \* the same chains with the typedefs in a local scope and across two modules (fam 7003)
-Relaid(ch, l) == [ch EXCEPT !.lay = l, !.mod = IF l = "xmod" THEN "b" ELSE @]
+\* layouts over two modules (see Chain in YangTypes.tla; the harness reads the text): split x naming x spelling
+XLays == <<"xm-0-same-own",
+           "xm-1-same-bare", "xm-1-same-own", "xm-1-mirror-bare", "xm-1-mirror-own", "xm-1-uniq-bare", "xm-1-uniq-own",
+           "xm-2-same-bare", "xm-2-same-own", "xm-2-mirror-bare", "xm-2-mirror-own", "xm-2-uniq-bare", "xm-2-uniq-own",
+           "xm-3-same-bare", "xm-3-same-own", "xm-3-mirror-bare", "xm-3-mirror-own", "xm-3-uniq-bare", "xm-3-uniq-own">>
+Relaid(ch, l) == [ch EXCEPT !.lay = l, !.mod = IF l = "xmod" \/ (l \in RangeOf(XLays) /\ l # "xm-0-same-own") THEN "b" ELSE @]
 LayoutFam == {Relaid(ch, l) : l \in {"local", "xmod"},
               ch \in IntRangeFam(1, 4, 3) \cup IntDefFam(4, 2, 2) \cup DecRangeFam(1, 5, 2) \cup DecDefFam(2) \cup LenFam(3, 2) \cup PatFam(2) \cup OtherDefFam \cup {ch \in KindFam : Len(ch.levels) = 2}}
 \* group 8: directly constructed types with rich probes (C16)
